@@ -22,11 +22,47 @@ func init() {
 		MinObs:      map[string]int64{"diffs_measured": 6000, "pairs_d0": 100, "large_pairs": 20},
 		Run:         runC15,
 		// a seed-determined case that reproduces the recorded finding on every run
-		Pinned: []fw.PinnedCase{{Seed: 1, Idx: 25954}, {Seed: 1, Idx: 147173}},
+		Pinned: []fw.PinnedCase{{Seed: 0, Idx: -1}},
 	})
 }
 
 var dbgC15 func(p *pair, loaded, ro, rn map[string]bool)
+
+// c15Directed builds, without any randomness, the smallest shape behind the
+// recorded finding D20: bf 2, 34 top-layer keys (height 5) and one layer-0 key
+// that hangs below the top node on a chain of four entry-less pass-through
+// nodes; the new version lacks the top-layer key whose right neighbour is that
+// chain and whose left neighbour is empty. Only the two top nodes differ (D=2).
+func c15Directed(c *fw.C) *pair {
+	cfg := kinds.Cfg{BF: 2, Format: formats[0], KK: kinds.KUser, VK: kinds.VInt, Cache: "none", Codec: "json"}
+	e := kinds.NewEnv(cfg)
+	o, err := newSide(e)
+	if err != nil {
+		return nil
+	}
+	for i := 1; i <= 34; i++ {
+		if err := o.ins(e, kinds.UKey{ID: i * 100, L: 9}, i); err != nil {
+			return nil
+		}
+	}
+	if err := o.ins(e, kinds.UKey{ID: 1750, L: 0}, 0); err != nil { // between 1700 and 1800
+		return nil
+	}
+	if err := o.persist(e, true); err != nil {
+		return nil
+	}
+	n, err := o.clone(e)
+	if err != nil {
+		return nil
+	}
+	if err := n.del(e, kinds.UKey{ID: 1700, L: 9}); err != nil {
+		return nil
+	}
+	if err := n.persist(e, true); err != nil {
+		return nil
+	}
+	return &pair{E: e, Old: o, New: n, Relation: "directed_passthrough_chain", Desc: "directed: top-layer key 1700 deleted next to a pass-through chain"}
+}
 
 func runC15(c *fw.C) {
 	r := c.R
@@ -42,7 +78,14 @@ func runC15(c *fw.C) {
 	var p *pair
 	var err error
 	large := c.Idx%20 == 7
-	if large {
+	if c.Idx == -1 {
+		if p = c15Directed(c); p == nil {
+			c.Obs("directed_case_failed_to_build", 1)
+			return
+		}
+		cfg = p.E.Cfg
+		writerCache = false
+	} else if large {
 		cfg.KK = []*kinds.KeyKind{kinds.KInt, kinds.KUint64, kinds.KString}[r.Intn(3)]
 		cfg.BF = []uint{4, 16}[r.Intn(2)]
 		n := r.Range(3000, 9000)
